@@ -174,7 +174,9 @@ def tlc(ctx, module, cfg=None, env=None, workers=1, timeout=600, xmx="2g", extra
     ctx.ntlc += 1
     md = os.path.join(ctx.dir, "md", "%s.%d" % (module, ctx.ntlc))
     os.makedirs(md, exist_ok=True)
-    cmd = ["java", "-XX:+UseParallelGC", "-Xss512m", "-Xmx" + xmx, "-cp", TLC_CP, "tlc2.TLC",
+    # java.io.tmpdir: TLC unpacks its standard modules into a fresh tlc-* directory per run; keep it inside the
+    # metadir (removed below) instead of littering /tmp
+    cmd = ["java", "-XX:+UseParallelGC", "-Xss512m", "-Xmx" + xmx, "-Djava.io.tmpdir=" + md, "-cp", TLC_CP, "tlc2.TLC",
            "-workers", str(workers), "-metadir", md, "-noGenerateSpecTE"]
     if cfg:
         cmd += ["-config", cfg]
@@ -614,7 +616,7 @@ def apalache(ctx, module, init, inv, length=0, cinit=None, timeout=600):
     cmd.append(module + ".tla")
     t = time.time()
     try:
-        rc, out = sh(cmd, cwd=SPEC, timeout=timeout, env={"JVM_ARGS": "-Xmx4g"})
+        rc, out = sh(cmd, cwd=SPEC, timeout=timeout, env={"JVM_ARGS": "-Xmx4g -Djava.io.tmpdir=" + out_dir})
     except Broken as ex:
         ctx.apalache.append(dict(module=module, inv=inv, result="timeout", wall_s=round(time.time() - t, 1)))
         log("  APALACHE %s %s: timeout (recorded, not a verdict)" % (module, inv))
